@@ -60,6 +60,9 @@ pub enum Feed {
 
 fn run_one(prev: Option<Element<String>>, bytes: &[u8], cfg: &ReaderCfg, feed: Feed)
     -> Result<Result<Element<String>, xml_schema_generator::ParserError>, ()> {
+    if let Some(t) = prev.as_ref() {
+        crate::util::probe_render(t);
+    }
     std::panic::catch_unwind(std::panic::AssertUnwindSafe(|| match feed {
         Feed::Whole | Feed::Chunk(_) => {
             let chunk = if let Feed::Chunk(n) = feed { n } else { 0 };
